@@ -186,6 +186,25 @@ def caps_case(r, tier):
     return dict(kind=style + ("+changes" if changed else ""), stable=stable, cap0=cap0, ops=ops)
 
 
+def caps_bitset_case(r):
+    """more than 128 nodes reached in two steps: the FixedBitSet block vectors (first allocation: 4 blocks =
+    128 bits) are reallocated by the reset of a later call"""
+    stable = r.chance(1, 2)
+    sh, ops = Shape(), []
+    n0 = r.range(60, 128)
+    for _ in range(n0):
+        sh.add_node(); ops.append(("N",))
+    add_edges(r, sh, ops, "dag", r.range(n0 // 2, n0))
+    ops.append(("P", r.choice(sh.nodes())))
+    ops.append(("P", max(sh.nodes())))
+    for _ in range(r.range(129 - n0, 200 - n0)):
+        sh.add_node(); ops.append(("N",))
+    add_edges(r, sh, ops, "dag", r.range(10, 60))
+    o = max(sh.nodes())
+    ops += [("P", o), ("P", o), ("P", r.choice(sh.nodes()))]
+    return dict(kind="bitset-regrow+changes", stable=stable, cap0=r.choice([0, 4, 64, 256]), ops=ops)
+
+
 def caps_corpus():
     d = os.path.join(F.VERIF, "corpus", PROP)
     items = []
@@ -201,9 +220,11 @@ def caps_corpus():
 
 def caps_cases(rng, tier):
     items = caps_corpus()
-    nrand = 1500 if tier == "quick" else 6000
+    nrand = 1500 if tier == "quick" else 4000
     for i in range(nrand):
         items.append(caps_build(caps_case(rng.fork(f"caps{i}"), tier)))
+    for i in range(8 if tier == "quick" else 40):
+        items.append(caps_build(caps_bitset_case(rng.fork(f"capsbits{i}"))))
     return items
 
 
